@@ -224,6 +224,36 @@ def twin_text_case(sh, rng):
             sys.modules.pop(mod.__name__, None)
 
 
+def te_alias_case(sh, rng):
+    """The alias is built with `typing_extensions.TypeAliasType` (the library depends on typing_extensions and uses that spelling
+    itself, `ctx.KeyT`). Where that class is distinct from `typing.TypeAliasType` (3.12 with the installed typing_extensions) the
+    alias must be as transparent as one built with the typing class."""
+    import typing
+
+    import typing_extensions
+
+    if typing_extensions.TypeAliasType is getattr(typing, "TypeAliasType", None):
+        sh.count("te_alias_same_class_skipped")
+        return
+    leaf = rng.choice(sorted(TWIN_LEAVES))
+    text = rng.choice(["Item", "list[Item]", "dict[str, Item]", "typing.Optional[Item]"])
+    ns = {"typing": typing, "Item": eval(leaf, {"decimal": __import__("decimal"), "datetime": __import__("datetime"), "uuid": __import__("uuid")})}
+    T = eval(text, ns)
+    W = typing_extensions.TypeAliasType("TEAlias", T)
+    sh.count("te_alias_cases")
+    for x in TWIN_LEAVES[leaf]:
+        w = [x] if text.startswith("list[") else ({"k": x} if text.startswith("dict[") else x)
+        sh.eval(("te-alias", text, leaf, repr(w)))
+        a, b = outcome(typelib.unmarshal, T, w), outcome(typelib.unmarshal, W, w)
+        if a[0] == "skip" or b[0] == "skip":
+            continue
+        same = a[0] == b[0] and (canon(a[1], strict=True) == canon(b[1], strict=True) if a[0] == "ok" else a[1] == b[1])
+        if not same:
+            sh.violation("alias-spelling-not-transparent", alias_class="typing_extensions.TypeAliasType", distinct_from_typing=True, alias_of=f"{text} with Item = {leaf}",
+                         input=short(w, 200), plain=short(a, 200), wrapped=short(b, 200))
+            return
+
+
 def run_case(sh, i, plan):
     rng = case_rng(sh, i)
     clear_typelib_caches(also_typing=True)
@@ -231,6 +261,8 @@ def run_case(sh, i, plan):
         return bytes_case(sh, rng)
     if rng.random() < 0.05:
         return twin_text_case(sh, rng)
+    if rng.random() < 0.02:
+        return te_alias_case(sh, rng)
     opts = U.Opts(depth=rng.choice([0, 1, 1, 2]), wrappers=False, recursive=False)
     prog = U.Program(rng)
     gen = U.Gen(prog, rng, opts)
